@@ -128,6 +128,15 @@ def run(ctx):
                 if code & 4:
                     ctx.broken.append("K_limit: limit of the model differs from Precompute on %r" % (kc[i][0],))
             ctx.log("correspondence: %d cases in %.1fs, skipped %s" % (len(codes), time.time() - t0, skipped))
+        # the Precompute model against Parse + Precompute
+        t0 = time.time()
+        sub = list(range(len(kc)))
+        if len(sub) > (400 if quick else 3000):
+            sub = sorted(rng.sample(sub, 400 if quick else 3000))
+        n, problems = kfl.check_precompute(ctx, [kc[i] for i in sub], [kres[i] for i in sub], int(time.time() * 1e9))
+        ctx.cov["precompute_traces_validated"] = n
+        ctx.broken += problems[:5]
+        ctx.log("precompute correspondence: %d cases in %.1fs, %d problems" % (n, time.time() - t0, len(problems)))
     for b in ctx.broken[:5]:
         ctx.log("broken:", b)
     ctx.trusted += [
